@@ -96,12 +96,21 @@ theorem indexGroupBy_idx (pfx : String) (c : Ctx) (es : List Expr) (cond : Cond)
     indexGroupBy pfx (idxSel c es cond aggAttr) = grpSel pfx [] none (idxSel c es cond aggAttr) := by
   simp [indexGroupBy, grpSel, Sel.with_, addWith1, hasAlias, Sel.withs, idxSel, Sel.setWiths, grpCols]
 
+/-- `check` refuses an aggregator other than `count` that names no attribute -/
+theorem check_agg (s : Selector) (op : ScriptOp) (rest : Script) (u : Unit) (h : check ((s, op) :: rest) = .ok u)
+    (a : Agg) (ha : s.agg = some a) (hfn : a.fn ≠ .count) : a.attr ≠ "" := by
+  intro hattr
+  unfold check at h
+  simp only [ha, bind, Except.bind] at h
+  rw [if_pos ⟨hfn, hattr⟩] at h
+  simp [throw, throwThe, MonadExceptOf.throw] at h
+
 /-- the shape of what `simpleExpressionPlanner.planner` builds for a selector with conditions -/
 theorem simpleSel_shape (c : Ctx) (pfx : String) (s : Selector) (op : ScriptOp) (rest : Script) (X : Sel) (e : AttrExp)
     (h : simpleSel c pfx ((s, op) :: rest) = .ok X) (he : s.attrs = some e) (hr : c.rndMax = 0) :
     ∃ es, mapOk termSql (analyzeCond [] e).1 = .ok es ∧
       ((s.agg = none ∧ X = grpSel pfx [] none (idxSel c es (analyzeCond [] e).2 "")) ∨
-       (∃ a f v, s.agg = some a ∧ cmpSql a.cmp = some f ∧ aggCmpText a = .ok v ∧
+       (∃ a f v, s.agg = some a ∧ cmpSql a.cmp = some f ∧ aggCmpText a = .ok v ∧ (a.fn ≠ .count → a.attr ≠ "") ∧
           X = grpSel pfx [] (aggHaving pfx a.fn f v) (idxSel c es (analyzeCond [] e).2 a.attr))) := by
   unfold simpleSel at h
   cases hc : check ((s, op) :: rest) with
@@ -134,7 +143,7 @@ theorem simpleSel_shape (c : Ctx) (pfx : String) (s : Selector) (op : ScriptOp) 
           | error m => simp [hf, hv, bind, Except.bind, pure, Except.pure] at h
           | ok v =>
             simp [hf, hv, bind, Except.bind, pure, Except.pure] at h
-            refine ⟨a, f, v, rfl, hf, hv, ?_⟩
+            refine ⟨a, f, v, rfl, hf, hv, check_agg s op rest u hc a hagg, ?_⟩
             rw [← h]
             simp [grpSel, Sel.andHaving, andCond, aggHaving]
 
@@ -219,7 +228,7 @@ theorem simple_traceRows (o : Oracles) (ao : AggOracles) (hp : PermInv ao) (c : 
     exact this
   have hmne : ∀ tr, (matchedSpans o c d e tr ≠ []) ↔ (!(matchedSpans o c d e tr).isEmpty) = true := by
     intro tr; cases matchedSpans o c d e tr <;> simp
-  rcases hX with ⟨hagg, rfl⟩ | ⟨a, f, v, hagg, hf, hv, rfl⟩
+  rcases hX with ⟨hagg, rfl⟩ | ⟨a, f, v, hagg, hf, hv, hattr0, rfl⟩
   · rw [grpSel_addCols]
     refine (key "" none (fun _ _ _ _ => rfl)).congr ?_
     intro tr
@@ -253,7 +262,7 @@ theorem simple_traceRows (o : Oracles) (ao : AggOracles) (hp : PermInv ao) (c : 
         (fun k hk => rowA_span o env c d _ a.attr k (hgne k hk))]
     | sum | min | max | avg =>
       simp only
-      have hattr : a.attr ≠ "" := hs.agg a hagg (by rw [hfn]; decide)
+      have hattr : a.attr ≠ "" := hattr0 (by rw [hfn]; decide)
       rw [aggTexts_eq, List.map_map, List.map_map, List.filterMap_map]
       rw [filterMap_congr_mem _ (aggValue o c d a.attr) (matchedSpans o c d e tr)]
       intro k hk
